@@ -3861,13 +3861,15 @@ class NameCheckVisitor(node_visitor.ReplacingNodeVisitor):
         allow_call = allow_call and method not in self.options.get_value_for(
             DisallowCallsToDunders
         )
-        right_literal = unannotate(right)
-        if allow_call and isinstance(right_literal, KnownValue):
+        if allow_call:
+            # Either operand may be a union of literals; every pair can get evaluated.
             allow_call = not any(
-                isinstance(subval, KnownValue)
-                and _literal_result_size(op, subval.val, right_literal.val)
+                isinstance(left_subval, KnownValue)
+                and isinstance(right_subval, KnownValue)
+                and _literal_result_size(op, left_subval.val, right_subval.val)
                 > MAX_LITERAL_RESULT_SIZE
-                for subval in flatten_values(left, unwrap_annotated=True)
+                for left_subval in flatten_values(left, unwrap_annotated=True)
+                for right_subval in flatten_values(right, unwrap_annotated=True)
             )
 
         if is_inplace:
